@@ -308,7 +308,7 @@ def build_cases(tier, rng, ps=(3, 5)):
         for _ in range(S * C):
             m = [0] * n
             for _b in range(rng.randint(1, 3)):
-                c0 = rng.randrange(257, n - 1) | 1            # an odd position above 256
+                c0 = rng.randrange(257, n - 2) | 1            # an odd position above 256 (c0 + 1 stays inside the map)
                 m[c0] = max(m[c0], rng.choice((3, 5, 6)))
                 m[c0 - 1] = max(m[c0 - 1], 1)
                 m[c0 + 1] = max(m[c0 + 1], 2 if m[c0 + 1] < 3 else m[c0 + 1])
